@@ -131,6 +131,17 @@ def run(rep: Report, tier: str) -> None:
     rf = rep.rule("C02.f", "no lot with balance leaves the candidate structures: a selected lot is put back on every returning path; the chronological start only moves past exhausted lots", floor=2)
     engine.check_heap_typestate(rep, rf)
 
+    # ---------------------------------------------------------------- C02.h / C02.i (premises restated)
+    rh = rep.rule("C02.h", "lots and events reach the engine in time order; nothing but the stable timestamp sort reorders an entry list (a lot hidden from its window makes a valid history fail)", floor=4)
+    engine.check_chronological_input(rep, rh)
+    engine.check_schedule_traversal(rep, rh)
+    from . import c03
+
+    ri = rep.rule("C02.i", "what must be covered: every out-transaction and every transfer with a non-zero fee is a taxable event (C03.a, C03.c, C03.e restated)", floor=40)
+    sub = Report("C03", tier)
+    c03.run(sub, tier)
+    rep.absorb(sub, ri, ("C03.a", "C03.c", "C03.e"), "taxable-event set")
+
     # ---------------------------------------------------------------- C02.e
     re_ = rep.rule("C02.e", "no fraction from a lot acquired after the disposal: order-preserving lot index, window bounded by the event", floor=10)
     engine.check_key_builder(rep, re_)
